@@ -1,6 +1,7 @@
 from common import COMMON_ASSUME
 
 PROP = dict(
+    # c11_bitstream.c includes c11_bitstream_huge.h (the "huge offset" class)
     harness=['c11_bitstream.c', 'c11_bitstream_u64.c', 'c11_bitstream_u32.c',
              'c11_bitstream_u16.c', 'c11_bitstream_u8.c'],
     level_text=('generated-input search over write sequences (up to 30 writes '
@@ -11,30 +12,61 @@ PROP = dict(
                 'the same range, and an exact-size allocation ending at the '
                 'last word; sanitised, pinned-release and '
                 'unoptimised-with-asserts builds; deterministic sweep of every '
-                '(position, width) pair of every word type'),
+                '(position, width) pair of every word type. One case in eight '
+                'runs on a sparse stream of 2^33 + 2^19 bits (1 GiB mapping, '
+                'few pages resident) with offsets around 2^31, 2^32, 3*2^31, '
+                '2^33 and random huge ones: read-back, a word model of the '
+                'watched windows (first 64 words, 4 words either side of the '
+                'range and of the places its ends taken mod 2^32, mod 2^31 or '
+                'as int32_t would alias to, pre-set to zeros / ones / random), '
+                're-read of the field as two narrower fields, and (one huge '
+                'case in four) a scan of every resident page for non-zero '
+                'unwatched words; the sweep covers every width at every '
+                'position containing, ending or starting at those four '
+                'boundaries and straddling the word boundary after them'),
     level_note=('trusts the reference bit vector (most significant bit of a '
                 'word first, as the default uint64_t instantiation behaves and '
                 'the header comment "we write in order" says), the harness '
                 'decoders and the compilers; word/value type pairs of unequal '
-                'width are not instantiated'),
+                'width are not instantiated; on the sparse stream a stray '
+                'store is seen only inside the watched windows or (scanned '
+                'cases) when it leaves a non-zero word; offsets beyond 2^33 + '
+                '2^19 bits are not generated (a word index narrowed to 32 '
+                'bits would need offsets >= 2^35 and is out of reach)'),
     rule=('case = (word type u64/u32/u16/u8, prior contents, up to 30 records '
           '(bit offset with position uniform / W-1 / W-width / W-width+1, '
           'width 1..W, value raw / 0 / all-ones / single bit / alternating / '
           'one hole / top bit) or signed-helper records (width 2..W, '
-          '|v| < 2^(width-1))); non-trivial = the range crosses a word '
-          'boundary, or width == W, or a bit adjacent to the range was 1 '
-          'before the write, or a signed-helper record; distinct by hash of '
-          '(W, offset, width, value, adjacent bits)'),
+          '|v| < 2^(width-1))); 1 case in 8 is a huge-offset case: same '
+          'records, offset = anchor (2^32, 2^33, 2^31, 3*2^31, random word, '
+          'random word >= 2^32, low word, 2^32 +- 1024 words) + position '
+          '(near / straddling the anchor / straddling a later word boundary / '
+          'ending or starting at a word boundary); non-trivial = the range '
+          'crosses a word boundary, or width == W, or a bit adjacent to the '
+          'range was 1 before the write, or a signed-helper record, or (huge '
+          'case) the last bit of the range is at offset >= 2^31; distinct by '
+          'hash of (W, offset, width, value, adjacent bits / fill)'),
     quick=dict(configs=['asan', 'rel', 'dbg'], cases=4000000, maxlen=340),
     thorough=dict(configs=['asan', 'rel', 'dbg'], cases=30000000, maxlen=340,
                   fuzz_s=120, setmax=1 << 23),
     required_classes=['u64.cross', 'u64.fullword', 'u64.end', 'u32.cross',
                       'u32.fullword', 'u32.end', 'u16.cross', 'u8.cross',
                       'u8.fullword', 'u64.signed.neg', 'u64.signed.fullwidth',
-                      'u32.signed.neg', 'u8.signed.neg', 'u64.fill.random'],
+                      'u32.signed.neg', 'u8.signed.neg', 'u64.fill.random'] +
+    ['%s.huge.%s' % (t, c) for t in ('u64', 'u32', 'u16', 'u8')
+     for c in ('cross.ge32', 'single.ge32', 'cross.ge31', 'single.ge31',
+               'span32', 'span31', 'fullword')] +
+    ['huge.at.2^32', 'huge.at.2^33', 'huge.at.2^31', 'huge.at.3*2^31',
+     'huge.at.random', 'huge.at.random.ge32', 'huge.at.low',
+     'huge.at.2^32.far', 'huge.fill.zeros', 'huge.fill.ones',
+     'huge.fill.mixed', 'huge.scan'],
     assumptions=COMMON_ASSUME + [
         'value < 2^width (asserted by the library), 1 <= width <= word size, '
         'offset + width <= stream size',
+        'huge-offset cases need 1.25 GiB of address space (MAP_NORESERVE); '
+        'when mmap refuses, the case runs on the 6-word stream and '
+        'huge.unavailable is counted (the huge.* required classes then '
+        'starve, which the report shows)',
         'VBITS and VBITSVAL are the same unsigned type (uint64_t default, '
         'uint32_t as documented, uint16_t, uint8_t)',
         'signed helpers are used as in examples/standalone/'
